@@ -3,6 +3,7 @@ import itertools
 from fractions import Fraction
 
 import common
+import whitebox
 from common import Disagreement, Failure, req
 
 ID = 'C13'
@@ -70,11 +71,11 @@ def fmt_split(s):
 
 
 def impl_state(w, clock):
-    st = w._state
+    st, started, stopped, splits, _ = whitebox.watch_view().snapshot(w)
     return 'state=%s started=%s stopped=%s splits=%s reads=%d' % (
-        st, 'N' if w._started_at is None else fmt_num(w._started_at),
-        'N' if w._stopped_at is None else fmt_num(w._stopped_at),
-        '|'.join(fmt_split(s) for s in w._splits), clock.i)
+        st, 'N' if started is None else fmt_num(started),
+        'N' if stopped is None else fmt_num(stopped),
+        '|'.join(fmt_split(s) for s in splits), clock.i)
 
 
 def call(w, op):
@@ -109,8 +110,9 @@ def run_impl(duration, clock_list, ops):
     outs, trace = [], []
     try:
         w = timeutils.StopWatch(duration)
+        view = whitebox.watch_view()
         for op in ops:
-            before = (w._state, w._started_at, w._stopped_at, w._splits, w._duration)
+            before = view.snapshot(w)
             i0 = clock.i
             try:
                 r = call(w, op)
@@ -136,7 +138,7 @@ def run_impl(duration, clock_list, ops):
                 else:
                     o = 'num:' + fmt_num(r)
             outs.append(o)
-            after = (w._state, w._started_at, w._stopped_at, w._splits, w._duration)
+            after = view.snapshot(w)
             # the reads the call made; if it made none, the value it would have read (a call may answer
             # without the clock where the answer does not depend on it)
             reads = clock_list[i0:clock.i] or [clock_list[min(i0, len(clock_list) - 1)]]
